@@ -5,7 +5,8 @@ import builtins
 
 import symx
 from symx import ModelGap, Sym, SymInt, SymReal, SymBool, SymRank
-from ._core import (ndarray, dtype, nan, inf, _discover, _infer_kind, _cast_cell, _prod, _strides, _norm_axis,
+from ._core import (generic, number, int64, float64, bool_, object_, str_,
+                    ndarray, dtype, nan, inf, _discover, _infer_kind, _cast_cell, _prod, _strides, _norm_axis,
                     _isnan_cell, _kind_of_cell, _promote, _promote_arrays, _bshape, _broadcast_flat,
                     _nonzero_lists, _argsort, AxisError)
 
@@ -1422,3 +1423,257 @@ class _MA(object):
 
 
 ma = _MA()
+
+
+# ------------------------------------------------------------------------------------ further commonly used functions
+def _minmax2(name):
+    def f(x, y, out=None, **kw):
+        if out is not None or kw:
+            raise ModelGap("ufunc kwargs")
+        xs, xf, kx, xarr = _operand(x)
+        ys, yf, ky, yarr = _operand(y)
+        rs = _bshape(xs, ys)
+        xb = _broadcast_flat(xs, xf, rs)
+        yb = _broadcast_flat(ys, yf, rs)
+        k = _promote_arrays(kx, ky)
+        out_ = []
+        for a, b in zip(xb, yb):
+            if _nanany(a, b):
+                out_.append(nan)
+            elif isinstance(a, Sym) or isinstance(b, Sym):
+                if isinstance(a, (SymRank, SymBool)) or isinstance(b, (SymRank, SymBool)):
+                    c = (a < b) if name == 'minimum' else (a > b)
+                    out_.append(a if c else b)
+                else:
+                    out_.append(symx.ite((a < b) if name == 'minimum' else (a > b), a, b))
+            else:
+                out_.append(builtins.min(a, b) if name == 'minimum' else builtins.max(a, b))
+        out_ = [c if _isnan_cell(c) else _cast_cell(c, k) for c in out_] if k in 'if' else out_
+        if rs == () and not (xarr or yarr):
+            return out_[0]
+        return ndarray(rs, k, out_)
+    f.__name__ = name
+    return f
+
+
+minimum = _minmax2('minimum')
+maximum = _minmax2('maximum')
+fmin = minimum
+fmax = maximum
+
+
+def clip(a, a_min=None, a_max=None, out=None, **kw):
+    if out is not None or kw:
+        raise ModelGap("clip kwargs")
+    r = asarray(a)
+    if a_min is not None:
+        r = maximum(r, a_min)
+    if a_max is not None:
+        r = minimum(r, a_max)
+    return r
+
+
+ndarray.clip = lambda self, a_min=None, a_max=None, **kw: clip(self, a_min, a_max, **kw)
+
+
+def mod(x, y):
+    def m(a, b):
+        if _nanany(a, b):
+            return nan
+        if isinstance(a, Sym) or isinstance(b, Sym):
+            if isinstance(a, SymInt) and isinstance(b, int) and b > 0:
+                import z3
+                return SymInt(a.z % b)
+            raise ModelGap("mod on symbolic values")
+        if b == 0:
+            return 0 if isinstance(a, int) and isinstance(b, int) else nan
+        return a % b
+    xs, xf, kx, xarr = _operand(x)
+    ys, yf, ky, yarr = _operand(y)
+    rs = _bshape(xs, ys)
+    out_ = [m(a, b) for a, b in zip(_broadcast_flat(xs, xf, rs), _broadcast_flat(ys, yf, rs))]
+    if rs == () and not (xarr or yarr):
+        return out_[0]
+    return ndarray(rs, _promote_arrays(kx, ky), out_)
+
+
+remainder = mod
+
+
+def sign(x):
+    def s1(c):
+        if _isnan_cell(c):
+            return c
+        if isinstance(c, Sym):
+            t = type(c)
+            import z3
+            one = z3.IntVal(1) if isinstance(c, SymInt) else z3.RealVal(1)
+            return t(z3.If(c.z > 0, one, z3.If(c.z < 0, -one, one - one)))
+        return (c > 0) - (c < 0) if isinstance(c, int) else float((c > 0) - (c < 0))
+    return _unary(s1, x)
+
+
+def isinf(x):
+    return _unary(lambda c: c in (inf, -inf) if not isinstance(c, Sym) else False, x, 'b')
+
+
+def count_nonzero(a, axis=None):
+    a = asarray(a)
+    t = ndarray(a.shape, 'b', [(_isnan_cell(c) or (c != 0 if not isinstance(c, (bool, SymBool, str)) else c)) for c in a._d])
+    return _reduce('sum', t, axis)
+
+
+def argwhere(a):
+    nz = nonzero(a)
+    n = nz[0].size if nz else 0
+    return ndarray((n, len(nz)), 'i', [nz[j]._d[i] for i in range(n) for j in range(len(nz))])
+
+
+def flip(a, axis=None):
+    a = asarray(a)
+    if axis is None:
+        key = tuple(slice(None, None, -1) for _ in a.shape)
+    else:
+        ax = _norm_axis(axis, a.ndim)
+        key = tuple(slice(None, None, -1) if i == ax else slice(None) for i in range(a.ndim))
+    return a[key]
+
+
+def append(arr, values, axis=None):
+    arr = asarray(arr)
+    values = asarray(values)
+    if axis is None:
+        return concatenate((arr.ravel(), values.ravel()))
+    return concatenate((arr, values), axis=axis)
+
+
+def insert(arr, obj, values, axis=None):
+    arr = asarray(arr)
+    if arr.ndim != 1 or axis not in (None, 0, -1):
+        raise ModelGap("insert N-d")
+    os_, of = _discover(obj)
+    vs_, vf = _discover(values)
+    n = arr.size
+    if os_ == ():
+        i = int(of[0])
+        if i < -n or i > n:
+            raise IndexError("index %d is out of bounds for axis 0 with size %d" % (i, n))
+        if i < 0:
+            i += n
+        cells = list(arr._d)
+        k = _promote_arrays(arr.dtype.kind, _infer_kind(vf)) if False else arr.dtype.kind
+        new = cells[:i] + [_cast_cell(v, k) for v in vf] + cells[i:]
+        return ndarray((len(new),), k, new)
+    if len(vf) == 1:
+        vf = vf * len(of)
+    if len(vf) != len(of):
+        raise ValueError("shape mismatch: value array could not be broadcast to indexing result")
+    pos = []
+    for i in of:
+        i = int(i)
+        if i < -n or i > n:
+            raise IndexError("index %d is out of bounds for axis 0 with size %d" % (i, n))
+        pos.append(i + n if i < 0 else i)
+    order = sorted(range(len(pos)), key=lambda j: pos[j])     # stable
+    cells = list(arr._d)
+    k = arr.dtype.kind
+    out = []
+    oi = 0
+    for p in range(n + 1):
+        while oi < len(order) and pos[order[oi]] == p:
+            out.append(_cast_cell(vf[order[oi]], k))
+            oi += 1
+        if p < n:
+            out.append(cells[p])
+    return ndarray((len(out),), k, out)
+
+
+def delete(arr, obj, axis=None):
+    arr = asarray(arr)
+    if arr.ndim != 1 or axis not in (None, 0, -1):
+        raise ModelGap("delete N-d")
+    os_, of = _discover(obj)
+    n = arr.size
+    drop = set()
+    for i in of:
+        i = int(i)
+        if i < -n or i >= n:
+            raise IndexError("index %d is out of bounds for axis 0 with size %d" % (i, n))
+        drop.add(i + n if i < 0 else i)
+    cells = [c for j, c in enumerate(arr._d) if j not in drop]
+    return ndarray((len(cells),), arr.dtype, cells)
+
+
+def expand_dims(a, axis):
+    a = asarray(a)
+    ax = axis if axis >= 0 else axis + a.ndim + 1
+    if ax < 0 or ax > a.ndim:
+        raise AxisError("axis %d is out of bounds for array of dimension %d" % (axis, a.ndim + 1))
+    return a.reshape(a.shape[:ax] + (1,) + a.shape[ax:])
+
+
+def moveaxis(a, source, destination):
+    a = asarray(a)
+    if not isinstance(source, int) or not isinstance(destination, int):
+        raise ModelGap("moveaxis with sequences")
+    s = _norm_axis(source, a.ndim)
+    d = _norm_axis(destination, a.ndim)
+    order = [i for i in range(a.ndim) if i != s]
+    order.insert(d, s)
+    return a.transpose(order)
+
+
+def atleast_1d(a):
+    a = asarray(a)
+    return a.reshape((1,)) if a.ndim == 0 else a
+
+
+def broadcast_to(a, shape):
+    a = asarray(a)
+    shape = _shape_arg(shape)
+    return ndarray(shape, a.dtype, _broadcast_flat(a.shape, a._d, shape))
+
+
+def tile(a, reps):
+    a = asarray(a)
+    if not isinstance(reps, int) or a.ndim != 1:
+        raise ModelGap("tile N-d")
+    return ndarray((a.size * reps,), a.dtype, list(a._d) * reps)
+
+
+def vstack(arrays):
+    arrays = [asarray(a) for a in arrays]
+    arrays = [a.reshape((1, a.size)) if a.ndim == 1 else a for a in arrays]
+    return concatenate(arrays, axis=0)
+
+
+def hstack(arrays):
+    arrays = [atleast_1d(a) for a in arrays]
+    return concatenate(arrays, axis=0 if arrays[0].ndim == 1 else 1)
+
+
+def logical_xor(x, y):
+    return _binary('bitwise_xor', asarray(x).astype(bool) if not isscalar(x) else bool(x), asarray(y).astype(bool) if not isscalar(y) else bool(y))
+
+
+def nan_to_num(*a, **k):
+    raise ModelGap("nan_to_num")
+
+
+def result_type(*a):
+    raise ModelGap("result_type")
+
+
+def issubdtype(a, b):
+    ka = _dtype(a).kind
+    if isinstance(b, type) and issubclass(b, generic):
+        if b is generic:
+            return True
+        if b is number:
+            return ka in 'if'
+        return {'i': issubclass(int64, b), 'f': issubclass(float64, b), 'b': issubclass(bool_, b), 'O': issubclass(object_, b), 'U': issubclass(str_, b)}[ka]
+    return _dtype(b).kind == ka
+
+
+def can_cast(*a, **k):
+    raise ModelGap("can_cast")
